@@ -356,7 +356,7 @@ pzgstrf_MemInit(int_t n, int_t annz, superlumt_options_t *superlumt_options,
 	    }
 	    nzumax /= 2;    /* reduce request */
 	    nzlmax /= 2;
-	    if ( nzumax < annz/2 ) {
+	    if ( nzumax <= annz/2 ) { /* "<=": annz/2 is 0 for a 1x1 matrix */
 		printf("Not enough memory to perform factorization.\n");
 		return (pzgstrf_memory_use(nzlmax, nzumax, nzlumax) + n);
 	    }
